@@ -366,7 +366,8 @@ Inductive eclass :=
 | KComm              (* ErrCommunication *)
 | KInternal          (* ErrInternal *)
 | KPanic
-| KOther.            (* anything else the driver may see (timeouts, unclassified errors, setup failures) *)
+| KOtherError       (* an error of another kind (timeout, argument-only, ...): still a rejection *)
+| KOther.            (* no answer at all: (nil, nil), or the driver could not set the case up *)
 
 Definition class_of (e : err) : eclass :=
   match e with
